@@ -60,6 +60,7 @@ REPO = os.environ.get("VERIF_REPO", "/repo")
 OUT = os.path.join(os.path.dirname(os.path.abspath(__file__)), "..", "coq", "Gen", "Kernels.v")
 OUT2 = os.path.join(os.path.dirname(os.path.abspath(__file__)), "..", "coq", "Gen", "Kernels2.v")
 OUT3 = os.path.join(os.path.dirname(os.path.abspath(__file__)), "..", "coq", "Gen", "Kernels3.v")
+OUT4 = os.path.join(os.path.dirname(os.path.abspath(__file__)), "..", "coq", "Gen", "Kernels4.v")
 
 # (coq name, file, python function, parameter types, return type or None for procedures,
 #  {while-loop ordinal: fuel expr in Coq}, checked)
@@ -143,12 +144,36 @@ KERNELS3 = [
          params=[("P_cdfs1d", "LT"), ("indices", "LZ"), ("indptr", "LZ"), ("init_states", "LZ"), ("random_values", "MT"),
                  ("out", "MZ")], rtype=None, fuels={}),
 ]
+# Kernels4.v: scalar solvers with function arguments (spec keys as above + v4=True, unbound=[(name, type)..])
+RF = "quantecon/optimize/root_finding.py"
+SOLVER_RT = ("T", "Z", "Z", "B")       # results(root, function_calls, iterations, converged)
+KERNELS4 = [
+    dict(cname="bisect_interval", file=RF, py="_bisect_interval",
+         params=[("a", "T"), ("b", "T"), ("fa", "T"), ("fb", "T")], rtype=("T", "Z"), fuels={}),
+    dict(cname="newton", file=RF, py="newton",
+         params=[("func", "F"), ("x0", "T"), ("fprime", "F"), ("args", "ARGS"), ("tol", "T"), ("maxiter", "Z"), ("disp", "B")],
+         rtype=SOLVER_RT, fuels={}, unbound=[("p", "T"), ("itr", "Z")]),
+    dict(cname="newton_halley", file=RF, py="newton_halley",
+         params=[("func", "F"), ("x0", "T"), ("fprime", "F"), ("fprime2", "F"), ("args", "ARGS"), ("tol", "T"), ("maxiter", "Z"),
+                 ("disp", "B")], rtype=SOLVER_RT, fuels={}, unbound=[("p", "T"), ("itr", "Z")]),
+    dict(cname="newton_secant", file=RF, py="newton_secant",
+         params=[("func", "F"), ("x0", "T"), ("args", "ARGS"), ("tol", "T"), ("maxiter", "Z"), ("disp", "B")],
+         rtype=SOLVER_RT, fuels={}, unbound=[("p", "T"), ("itr", "Z")]),
+    dict(cname="bisect", file=RF, py="bisect",
+         params=[("f", "F"), ("a", "T"), ("b", "T"), ("args", "ARGS"), ("xtol", "T"), ("rtol", "T"), ("maxiter", "Z"), ("disp", "B")],
+         rtype=SOLVER_RT, fuels={}, unbound=[("itr", "Z")]),
+    dict(cname="brentq", file=RF, py="brentq",
+         params=[("f", "F"), ("a", "T"), ("b", "T"), ("args", "ARGS"), ("xtol", "T"), ("rtol", "T"), ("maxiter", "Z"), ("disp", "B")],
+         rtype=SOLVER_RT, fuels={},
+         unbound=[("itr", "Z"), ("xblk", "T"), ("fblk", "T"), ("spre", "T"), ("scur", "T")]),
+]
 # PO: the namedtuple PivOptions(fea_tol, tol_piv, tol_ratio_diff), flattened into three element parameters
 PO_FIELDS = ["fea_tol", "tol_piv", "tol_ratio_diff"]
 PO_DEFAULTS = ["FEA_TOL", "TOL_PIV", "TOL_RATIO_DIFF"]     # PivOptions.__new__.__defaults__ (checked in generate2)
 CALLABLE = {}
 CALL2 = {}    # python name -> dict(coq, params, rtype, outs, amb, defaults, modconsts)
-COQTY = {"Z": "Z", "T": "T", "B": "bool", "LT": "list T", "LZ": "list Z", "MT": "list (list T)", "LB": "list bool", "MZ": "list (list Z)"}
+COQTY = {"Z": "Z", "T": "T", "B": "bool", "LT": "list T", "LZ": "list Z", "MT": "list (list T)", "LB": "list bool", "MZ": "list (list Z)",
+         "F": "T -> T", "S": "string"}
 ELT = {"LT": "T", "LZ": "Z"}
 
 
@@ -198,6 +223,11 @@ Definition fill2 {A} (a : list (list A)) (rs cs : dimsel) (v : A) : list (list A
   mapz_from (fun i row => if (sel_lo rs (length a) <=? i) && (i <? sel_hi rs (length a)) then fill1 row cs v else row) 0 a.
 """
 
+PRELUDE4 = """(* Kernels of this file return (exception text + value, ok__) when the Python function can raise.
+   Function arguments f(x, *args) are Gallina parameters f : T -> T; abs / unary minus / np.sign / floating-point
+   literals other than 0.0 and 1.0 are extra parameters abs_ neg_ sign_ c_<value> (an integer literal k in a
+   floating-point operation is the literal k.0). *)
+"""
 PRELUDE3 = """(* np.sum of a 1-d array (numba: acc = 0; for v in a: acc += v) and the 1-d view r[lo:hi] *)
 Definition nsum1 {T : Type} `{Num T} (l : list T) : T := fold_left nadd l nzero.
 Definition slice1 {A} (r : list A) (s : dimsel) : list A :=
@@ -213,7 +243,8 @@ Definition get2z (a : list (list Z)) (i j : Z) : Z :=
 """
 
 
-AMB_TYPES = {"floor_mul_": "T -> Z -> Z", "sort_": "list T -> list T"}     # ambient parameters that are not elements
+AMB_TYPES = {"floor_mul_": "T -> Z -> Z", "sort_": "list T -> list T", "abs_": "T -> T", "neg_": "T -> T", "sign_": "T -> T",
+             "isfinite_": "T -> bool"}     # ambient parameters that are not elements
 
 
 def amb_type(a):
@@ -248,7 +279,7 @@ def is_cond(e):
 
 class Tr:
     def __init__(self, cname, fn, ptypes, rtype, fuels, checked, v2=False, modconsts=None, file=None, imports=None,
-                 result_nt=None):
+                 result_nt=None, v4=False, unbound=None):
         self.cname, self.fn, self.rtype, self.fuels, self.checked = cname, fn, rtype, fuels, checked
         self.types = dict(ptypes)
         self.params = [p for p, _ in ptypes]
@@ -264,8 +295,15 @@ class Tr:
         self.result_nt = result_nt      # (namedtuple name, index of the array field) of the `return NT(arr, scalars..)` form
         self.ntmp = 0
         self.optional_supplied = []
+        self.v4 = v4                    # Kernels4 mode: scalar solvers with function arguments, float literals, raise
+        self.unbound = unbound or []    # variables that Python leaves unbound until their first assignment: (name, type)
+        self.raises = False
         self.binders = []               # (name, type) with PO parameters flattened
         for pn, t in ptypes:
+            if t == "ARGS":
+                continue                 # the *args tuple: folded into the function parameters
+            if t == "F":
+                self.generic = True
             if t == "PO":
                 if not v2:
                     raise Unsupported("PivOptions parameter")
@@ -282,10 +320,30 @@ class Tr:
     def ty(self, e):
         if is_cond(e):
             return "B"
+        if self.v4 and isinstance(e, ast.Name) and e.id not in self.types and type(self.modconsts.get(e.id)) is int:
+            return "Z"
         if isinstance(e, ast.Name):
             if e.id not in self.types:
                 raise Unsupported("unknown variable %s" % e.id)
             return self.types[e.id]
+        if self.v4 and isinstance(e, ast.Constant) and type(e.value) is float:
+            return "T"
+        if self.v4 and isinstance(e, ast.Constant) and type(e.value) is str:
+            return "S"
+        if self.v4 and isinstance(e, ast.IfExp):
+            a, b = self.ty(e.body), self.ty(e.orelse)
+            if a != b or a not in ("T", "Z") or self.ty(e.test) != "B":
+                raise Unsupported("conditional expression %s" % ast.unparse(e))
+            return a
+        if self.v4 and self.fcall(e) is not None:
+            return "T"
+        if self.v4 and self.lib1(e) is not None:
+            return "T"
+        if self.v4 and self.sqrt_const(e) is not None:
+            return "T"
+        if self.v4 and isinstance(e, ast.Call) and self.callname(e) in ("min", "max", "np.maximum", "np.minimum") \
+                and len(e.args) == 2 and self.ty(e.args[0]) == "T" and self.ty(e.args[1]) == "T":
+            return "T"
         if isinstance(e, ast.Subscript):
             if self.v2 and self.shape_of(e.value):
                 arr = self.shape_of(e.value)
@@ -311,6 +369,10 @@ class Tr:
             if self.v2 and (a, b) == ("T", "Z") and self.intlit(e.right) is not None:
                 return "T"
             if self.v2 and (a, b) == ("Z", "T") and self.intlit(e.left) is not None:
+                return "T"
+            if self.v4 and (a, b) == ("T", "Z") and self.anyint(e.right) is not None:
+                return "T"
+            if self.v4 and (a, b) == ("Z", "T") and self.anyint(e.left) is not None:
                 return "T"
             if a != b or a not in ("Z", "T"):
                 raise Unsupported("mixed arithmetic in %s" % ast.unparse(e))
@@ -456,6 +518,47 @@ class Tr:
             return "(%s %s)" % ("nrows2" if k == 0 else "ncols2", arr)
         return "(Z.of_nat (length %s))" % arr
 
+    def anyint(self, e):
+        """an int literal (possibly negated) in element context: its value"""
+        if isinstance(e, ast.Constant) and type(e.value) is int:
+            return e.value
+        if isinstance(e, ast.UnaryOp) and isinstance(e.op, ast.USub) and isinstance(e.operand, ast.Constant) and type(e.operand.value) is int:
+            return -e.operand.value
+        return None
+
+    def fconst(self, v):
+        """a floating-point literal: 0.0 / 1.0 are nzero / none_, any other value is an extra parameter c_<value>"""
+        v = float(v)
+        if v == 0.0:
+            return "nzero"
+        if v == 1.0:
+            return "none_"
+        name = "c_" + repr(abs(v)).replace(".", "_").replace("-", "m").replace("+", "")
+        return self.use_amb(name) if v > 0 else "(%s %s)" % (self.use_amb("neg_"), self.use_amb(name))
+
+    def fcall(self, e):
+        """f(x, *args) with f a function parameter: (f, x)"""
+        if isinstance(e, ast.Call) and isinstance(e.func, ast.Name) and self.types.get(e.func.id) == "F" and not e.keywords \
+                and len(e.args) == 2 and isinstance(e.args[1], ast.Starred) and isinstance(e.args[1].value, ast.Name) \
+                and self.types.get(e.args[1].value.id) == "ARGS" and self.ty(e.args[0]) == "T":
+            return e.func.id, e.args[0]
+        return None
+
+    def lib1(self, e):
+        """abs / np.abs / np.sign of an element: (extra function parameter, argument)"""
+        if isinstance(e, ast.Call) and not e.keywords and len(e.args) == 1:
+            f = self.callname(e)
+            nm = {"abs": "abs_", "np.abs": "abs_", "np.sign": "sign_"}.get(f)
+            if nm and self.ty(e.args[0]) == "T":
+                return nm, e.args[0]
+        return None
+
+    def sqrt_const(self, e):
+        if isinstance(e, ast.Call) and self.callname(e) == "np.sqrt" and len(e.args) == 1 and not e.keywords \
+                and isinstance(e.args[0], ast.Constant) and type(e.args[0].value) is float:
+            return "sqrt_" + repr(e.args[0].value).replace(".", "_").replace("-", "m").replace("+", "")
+        return None
+
     def negconst(self, e):
         return isinstance(e, ast.UnaryOp) and isinstance(e.op, ast.USub) and isinstance(e.operand, ast.Constant) \
             and type(e.operand.value) is int and e.operand.value > 0
@@ -486,6 +589,8 @@ class Tr:
 
     def exT(self, e, want):
         """expression of type `want`; int literals 0/1/-1 are accepted where an element is wanted"""
+        if self.v4 and want == "T" and self.anyint(e) is not None and self.ty(e) == "Z":
+            return self.fconst(self.anyint(e))
         if self.v2 and want == "T" and self.intlit(e) is not None and self.ty(e) == "Z":
             return {0: "nzero", 1: "none_", -1: "(nsub nzero none_)"}[self.intlit(e)]
         if self.ty(e) != want:
@@ -502,15 +607,38 @@ class Tr:
     def ex(self, e):
         if is_cond(e):
             return self.cond(e)
+        if self.v4 and isinstance(e, ast.Name) and e.id not in self.types and type(self.modconsts.get(e.id)) is int:
+            v = self.modconsts[e.id]
+            return "%d" % v if v >= 0 else "(%d)" % v
         if isinstance(e, ast.Name):
             self.ty(e)
             return e.id
+        if self.v4 and isinstance(e, ast.Constant) and type(e.value) is float:
+            return self.fconst(e.value)
+        if self.v4 and isinstance(e, ast.Constant) and type(e.value) is str:
+            return '"%s"%%string' % e.value.replace('"', '""')
+        if self.v4 and isinstance(e, ast.IfExp):
+            t = self.ty(e)
+            return "(if %s then %s else %s)" % (self.cond(e.test), self.exT(e.body, t), self.exT(e.orelse, t))
+        if self.v4 and self.fcall(e) is not None:
+            f, x = self.fcall(e)
+            return "(%s %s)" % (f, self.ex(x))
+        if self.v4 and self.lib1(e) is not None:
+            nm, x = self.lib1(e)
+            return "(%s %s)" % (self.use_amb(nm), self.ex(x))
+        if self.v4 and self.sqrt_const(e) is not None:
+            return self.use_amb(self.sqrt_const(e))
+        if self.v4 and isinstance(e, ast.Call) and self.callname(e) in ("min", "max", "np.maximum", "np.minimum") and self.ty(e) == "T":
+            a, b = self.ex(e.args[0]), self.ex(e.args[1])       # Python: min(a, b) = b if b < a else a; max(a, b) = b if a < b else a
+            return "(if nltb %s %s then %s else %s)" % ((b, a, b, a) if self.callname(e) in ("min", "np.minimum") else (a, b, b, a))
         if isinstance(e, ast.Constant):
             self.ty(e)
             return "%d" % e.value if e.value >= 0 else "(%d)" % e.value
         if isinstance(e, ast.Attribute) and ast.unparse(e) == "np.iinfo(np.intp).max":
             return "9223372036854775807"
         if isinstance(e, ast.UnaryOp) and isinstance(e.op, ast.USub):
+            if self.v4 and self.ty(e.operand) == "T":
+                return "(%s %s)" % (self.use_amb("neg_"), self.ex(e.operand))
             if self.v2 and self.ty(e.operand) == "T":
                 return "(nsub nzero %s)" % self.ex(e.operand)   # -x as 0 - x (differs from IEEE negation only in the sign of zero)
             if self.ty(e.operand) != "Z":
@@ -604,7 +732,11 @@ class Tr:
         if isinstance(e, ast.Compare) and len(e.ops) == 1:
             a, b = e.left, e.comparators[0]
             ta, tb = self.ty(a), self.ty(b)
-            if self.v2 and (ta, tb) == ("T", "Z") and self.intlit(b) is not None:
+            if self.v4 and (ta, tb) == ("T", "Z") and self.anyint(b) is not None:
+                sa, sb, tb = self.ex(a), self.exT(b, "T"), "T"
+            elif self.v4 and (ta, tb) == ("Z", "T") and self.anyint(a) is not None:
+                sa, sb, ta = self.exT(a, "T"), self.ex(b), "T"
+            elif self.v2 and (ta, tb) == ("T", "Z") and self.intlit(b) is not None:
                 sa, sb, tb = self.ex(a), self.exT(b, "T"), "T"
             elif self.v2 and (ta, tb) == ("Z", "T") and self.intlit(a) is not None:
                 sa, sb, ta = self.exT(a, "T"), self.ex(b), "T"
@@ -713,7 +845,7 @@ class Tr:
         if not stmts:
             return False
         s = stmts[-1]
-        if isinstance(s, (ast.Return, ast.Break, ast.Continue)):
+        if isinstance(s, (ast.Return, ast.Break, ast.Continue, ast.Raise)):
             return True
         if isinstance(s, ast.If):
             return self.terminates(s.body) and self.terminates(s.orelse)
@@ -721,7 +853,7 @@ class Tr:
 
     def has_exit(self, stmts, in_loop=False):
         for s in stmts:
-            if isinstance(s, ast.Return) or (isinstance(s, (ast.Break, ast.Continue)) and not in_loop):
+            if isinstance(s, (ast.Return, ast.Raise)) or (isinstance(s, (ast.Break, ast.Continue)) and not in_loop):
                 return True
             if isinstance(s, ast.If) and (self.has_exit(s.body, in_loop) or self.has_exit(s.orelse, in_loop)):
                 return True
@@ -760,15 +892,32 @@ class Tr:
                 if k["end_proc"] is None:
                     raise Unsupported("return inside a loop of a procedure")
                 return k["end_proc"]()     # `return a` of a stored array parameter: the caller already holds it
+            if self.v4 and isinstance(s.value, ast.Call) and self.callname(s.value) == "_results" and len(s.value.args) == 1 \
+                    and isinstance(s.value.args[0], ast.Tuple) and len(s.value.args[0].elts) == 4 and self.results_ok:
+                x, fc, it, flag = s.value.args[0].elts     # _results(r): results(x, funcalls, iterations, flag == 0)
+                tup = ast.Tuple(elts=[x, fc, it, ast.Compare(left=flag, ops=[ast.Eq()], comparators=[ast.Constant(value=0)])], ctx=ast.Load())
+                return self.stmts([ast.Return(value=tup)] + rest, k)
             if self.rtype is None or self.ty(s.value) != self.rtype:
                 raise Unsupported("return type of %s" % ast.unparse(s))
-            return self.guard([s.value], k["ret"](self.ex(s.value)))
+            return self.guard([s.value], k["ret"](self.retval(self.ex(s.value))))
+        if self.v4 and isinstance(s, ast.Raise) and s.cause is None and isinstance(s.exc, ast.Call) and isinstance(s.exc.func, ast.Name) \
+                and len(s.exc.args) == 1 and not s.exc.keywords and self.ty(s.exc.args[0]) == "S":
+            if self.rtype is None:
+                raise Unsupported("raise in a procedure")
+            msg = self.ex(s.exc.args[0])
+            return k["ret"]('(inl (String.append "%s: " %s))' % (s.exc.func.id, msg))
         if isinstance(s, ast.Break):
             return k["brk"]()
         if isinstance(s, ast.Continue):
             return k["cont"]()
         if isinstance(s, (ast.Assign, ast.AugAssign)):
             tgt = s.targets[0] if isinstance(s, ast.Assign) else s.target
+            if self.v4 and isinstance(s, ast.Assign) and len(s.targets) > 1 and all(isinstance(t, ast.Name) for t in s.targets):
+                tmp = "tmp%d__" % self.ntmp       # a = b = e: e once, then the targets left to right
+                self.ntmp += 1
+                new = [ast.Assign(targets=[ast.Name(id=tmp, ctx=ast.Store())], value=s.value)]
+                new += [ast.Assign(targets=[t], value=ast.Name(id=tmp, ctx=ast.Load())) for t in s.targets]
+                return self.stmts(new + rest, k)
             if isinstance(s, ast.Assign) and len(s.targets) != 1:
                 raise Unsupported("multiple assignment")
             if isinstance(s, ast.AugAssign):
@@ -874,7 +1023,7 @@ class Tr:
                     raise Unsupported("variable %s changes type" % tgt.id)
                 if tgt.id in self.params and self.types[tgt.id] in ("LT", "LZ", "MT", "MZ"):
                     raise Unsupported("rebinding array parameter %s" % tgt.id)
-                if isinstance(t, tuple) or t in ("LT", "PO") or \
+                if isinstance(t, tuple) or t in ("LT", "PO", "F", "ARGS") or \
                         (t == "MT" and not (self.v2 and self.np_empty2(value) is not None and tgt.id not in self.types)) or \
                         (t == "LZ" and not (self.v2 and (self.np_empty_int(value) is not None or self.np_arange(value) is not None)
                                             and tgt.id not in self.types)):
@@ -922,8 +1071,15 @@ class Tr:
             types_a = dict(self.types)
             self.types = dict(pre)
             b = self.stmts(s.orelse, endk) if s.orelse else None
+            types_b = dict(self.types)
             # a variable first assigned inside a branch is usable afterwards only if it existed before
+            # (Kernels4: or if both branches assign it, with the same scalar type)
             new_in_branch = [m for m in mod if m not in pre]
+            keep = {m: types_a[m] for m in new_in_branch
+                    if self.v4 and s.orelse and types_a.get(m) in ("T", "Z", "B") and types_a.get(m) == types_b.get(m)}
+            new_in_branch = [m for m in new_in_branch if m not in keep]
+            if keep:
+                pre = dict(pre, **keep)
             if new_in_branch:
                 # iteration-local temporaries: drop them from the merged tuple
                 mod = [m for m in mod if m in pre]
@@ -1025,6 +1181,13 @@ class Tr:
                 else:
                     raise Unsupported("omitted argument %s of %s" % (pname, ast.unparse(call)))
                 continue
+            if ptype == "ARGS":
+                continue
+            if ptype == "F":
+                if pname in m and isinstance(m[pname], ast.Name) and self.types.get(m[pname].id) == "F":
+                    args.append(m[pname].id)
+                    continue
+                raise Unsupported("function argument of %s" % ast.unparse(call))
             if ptype == "PO":
                 if pname not in m and ast.unparse(info["defaults"].get(pname, ast.Constant(value=0))) == "PivOptions()":
                     args += [self.use_amb(c) for c in PO_DEFAULTS]
@@ -1070,6 +1233,13 @@ class Tr:
             if (nme in self.types and self.types[nme] != t) or nme in self.params:
                 raise Unsupported("variable %s changes type / rebinding a parameter" % nme)
         self.types.update(newtypes)
+        if info.get("raises"):
+            if outnames or not self.raises or not vpat:
+                raise Unsupported("call of a raising kernel %s" % ast.unparse(call))
+            vp = vpat[0] if len(vpat) == 1 else "'(" + ", ".join(vpat) + ")"
+            txt = ("let '(r__, okc__) := %s %s in\nlet ok__ := ok__ && okc__ in\nmatch r__ with\n| inl e__ => %s\n| inr v__ =>\n"
+                   "let %s := v__ in\n%s\nend") % (info["coq"], " ".join(amb + args), k["ret"]("(inl e__)"), vp, self.stmts(rest, k))
+            return self.guard(read_exprs, txt)
         pat = "'(" + ", ".join(vpat + outnames + ["okc__"]) + ")"
         txt = "let %s := %s %s in\nlet ok__ := ok__ && okc__ in\n%s" % (
             pat, info["coq"], " ".join(amb + args), self.stmts(rest, k))
@@ -1102,6 +1272,9 @@ class Tr:
             if ivar in self.types and self.types[ivar] != "Z":
                 raise Unsupported("loop variable type")
             ivar_fresh = ivar not in self.types
+            keepvar = None
+            if self.v4 and not ivar_fresh:
+                keepvar, ivar = ivar, ivar + "__i"     # index binder; the variable itself is carried and set at each pass
             self.types[ivar] = "Z"
             fuel = "(Z.to_nat (%s - %s))" % ((hi, lo) if step == 1 else (lo, hi))
         else:
@@ -1112,12 +1285,14 @@ class Tr:
             ivar = None
         pre = dict(self.types)
         carried = [v for v in self.assigned(s.body) if v != ivar and v in pre]
-        has_ret = any(isinstance(n, ast.Return) for st in s.body for n in ast.walk(st))
+        if is_for and keepvar and keepvar not in carried:
+            carried.insert(0, keepvar)
+        has_ret = any(isinstance(n, (ast.Return, ast.Raise)) for st in s.body for n in ast.walk(st))
         known = [v for v in pre if v not in carried and v != ivar]
         used = set(n.id for st in ([s.test] if not is_for else []) + list(s.body) for n in ast.walk(st) if isinstance(n, ast.Name))
         free = [x for v in known if v in used
                 for x in (["%s_%s" % (v, f) for f in PO_FIELDS] if pre[v] == "PO" else [v])]
-        free = [v for i, v in enumerate(free) if v not in free[:i]]
+        free = [v for i, v in enumerate(free) if v not in free[:i] and pre.get(v) != "ARGS"]
         ctuple = self.tuple_of(carried) if carried else "tt"
         binders = " ".join("(%s : %s)" % (v, COQTY[pre[v]]) for v in ([ivar] if ivar else []) + carried + free)
         ctype = " * ".join(COQTY[pre[v]] for v in carried) if carried else "unit"
@@ -1133,6 +1308,8 @@ class Tr:
         bodyk = dict(end=cont, cont=cont, brk=lambda: wrap_inr(ctuple), end_proc=None,
                      ret=(lambda e: "inl %s" % self.wrap_result(e)), prop=(lambda r: "inl %s" % r))
         btxt = self.stmts(list(s.body), bodyk)
+        if is_for and keepvar:
+            btxt = "let %s := %s in\n%s" % (keepvar, ivar, btxt)
         if not is_for:
             self.types = dict(pre)
             btxt = self.guard([s.test], "if %s then\n%s\nelse %s" % (self.cond(s.test), btxt, wrap_inr(ctuple)))
@@ -1159,10 +1336,15 @@ class Tr:
         if self.rtype is None:
             base = " * ".join(COQTY[self.types[v]] for v in self.outs) if self.outs else "unit"
         elif self.v2:
-            base = " * ".join([coqty(self.rtype)] + [COQTY[self.types[v]] for v in self.outs])
+            vt = "(string + %s)" % coqty(self.rtype) if self.raises else coqty(self.rtype)
+            base = " * ".join([vt] + [COQTY[self.types[v]] for v in self.outs])
         else:
             base = COQTY[self.rtype]
         return "%s * bool" % base if self.checked else base
+
+    def retval(self, e):
+        """a normally returned value of a kernel that can raise: the right injection of (exception text + value)"""
+        return "(inr %s)" % e if self.raises else e
 
     def wrap_result(self, e):
         if self.v2 and self.rtype is not None and self.outs:
@@ -1186,6 +1368,9 @@ class Tr:
                         raise Unsupported("name clash %s_" % nd.id)
                     nd.id += "_"
             body = [st for st in body if not self.none_default(st)]
+        if self.v4:
+            self.raises = any(isinstance(nd, ast.Raise) for nd in ast.walk(self.fn)) or \
+                any(isinstance(nd, ast.Call) and self.callee(nd) and self.callee(nd).get("raises") for nd in ast.walk(self.fn))
         # procedures return the arrays they store into (in parameter order)
         stored = [v for v in self.assigned(body) if v in self.params and self.types[v] in ("LT", "LZ", "MT", "MZ")]
         self.outs = [p for p in self.params if p in stored]
@@ -1199,11 +1384,15 @@ class Tr:
             return f
         k = dict(end=(end_proc if self.rtype is None else None), end_proc=(end_proc if self.rtype is None else None),
                  brk=no("break"), cont=no("continue"), ret=self.wrap_result, prop=lambda r: r)
+        for nme, t in self.unbound:
+            self.types[nme] = t
         txt = self.stmts(body, k)
+        for nme, t in reversed(self.unbound):    # unbound in Python until first assigned: a default stands for "unbound"
+            txt = "let %s := %s in\n%s" % (nme, {"T": "nzero", "Z": "0", "B": "false"}[t], txt)
         if self.checked:
             txt = "let ok__ := true in\n" + txt
         if self.v2:
-            binders = " ".join("(%s : %s)" % (p, COQTY[t]) for p, t in self.binders)
+            binders = " ".join("(%s : %s)" % (p, COQTY[t]) for p, t in self.binders if t != "ARGS")
         else:
             binders = " ".join("(%s : %s)" % (p, COQTY[dict(zip(self.params, [self.types[p] for p in self.params]))[p]]) for p in self.params)
         binders = "".join("(%s : %s) " % (a, amb_type(a)) for a in self.amb) + binders
@@ -1235,6 +1424,10 @@ def module_consts(tree):
         if isinstance(n, ast.Assign) and len(n.targets) == 1 and isinstance(n.targets[0], ast.Name) \
                 and isinstance(n.value, ast.Constant) and type(n.value.value) in (int, float):
             out[n.targets[0].id] = n.value.value
+        elif isinstance(n, ast.Assign) and len(n.targets) == 1 and isinstance(n.targets[0], ast.Name) \
+                and isinstance(n.value, ast.UnaryOp) and isinstance(n.value.op, ast.USub) \
+                and isinstance(n.value.operand, ast.Constant) and type(n.value.operand.value) in (int, float):
+            out[n.targets[0].id] = -n.value.operand.value
     return out
 
 
@@ -1270,9 +1463,16 @@ def generate3():
     return generate_v2(KERNELS3, "Base.Num Gen.Kernels Gen.Kernels2", PRELUDE3)
 
 
-def generate_v2(kernels, qe_imports, prelude):
+def generate4():
+    return generate_v2(KERNELS4, "Base.Num Gen.Kernels Gen.Kernels2 Gen.Kernels3", PRELUDE4, v4=True)
+
+
+RESULTS_DEF = "def _results(r):\n    x, funcalls, iterations, flag = r\n    return results(x, funcalls, iterations, flag == 0)"
+
+
+def generate_v2(kernels, qe_imports, prelude, v4=False):
     parts = ["(* GENERATED by harness/py2coq.py from the current source of the repository under check -- do not edit. *)",
-             "From Coq Require Import ZArith List Bool.", "From QE Require Import %s." % qe_imports,
+             "From Coq Require Import ZArith List Bool%s." % (" String" if v4 else ""), "From QE Require Import %s." % qe_imports,
              "Import ListNotations.", "Open Scope Z_scope.", "", prelude]
     for spec in kernels:
         src = open(os.path.join(REPO, spec["file"])).read()
@@ -1295,7 +1495,11 @@ def generate_v2(kernels, qe_imports, prelude):
                 raise Unsupported("definition of %s changed" % spec["result_nt"])
         imports = resolve_imports(spec["file"], tree)
         tr = Tr("gen_" + spec["cname"], fn, spec["params"], rtype, spec["fuels"], True, v2=True,
-                modconsts=module_consts(tree), file=spec["file"], imports=imports, result_nt=spec.get("result_nt"))
+                modconsts=module_consts(tree), file=spec["file"], imports=imports, result_nt=spec.get("result_nt"),
+                v4=v4, unbound=spec.get("unbound"))
+        rdef = [n for n in tree.body if isinstance(n, ast.FunctionDef) and n.name == "_results"]
+        tr.results_ok = len(rdef) == 1 and ast.unparse(ast.FunctionDef(name=rdef[0].name, args=rdef[0].args, body=strip_doc(rdef[0].body),
+                                                                       decorator_list=[], lineno=0)) == RESULTS_DEF
         text = tr.translate()
         sig = "returns (%s, ok__)" % ", ".join((["value"] if rtype is not None else []) + tr.outs)
         parts.append("(* ---- %s :: %s  [bounds-checked: %s]%s%s ---- *)" % (
@@ -1304,7 +1508,7 @@ def generate_v2(kernels, qe_imports, prelude):
         parts.append(text)
         parts.append("")
         CALL2[(spec["file"], spec["py"])] = dict(coq="gen_" + spec["cname"], params=spec["params"], rtype=rtype, outs=list(tr.outs),
-                                 amb=list(tr.amb), defaults=tr.defaults, modconsts=tr.modconsts)
+                                 amb=list(tr.amb), defaults=tr.defaults, modconsts=tr.modconsts, raises=tr.raises)
     return "\n".join(parts)
 
 
@@ -1319,7 +1523,7 @@ def write_atomic(path, text):
 
 def main():
     rcs = 0
-    for gen, path in ((generate, OUT), (generate2, OUT2), (generate3, OUT3)):
+    for gen, path in ((generate, OUT), (generate2, OUT2), (generate3, OUT3), (generate4, OUT4)):
         if gen is generate:
             CALLABLE.clear()
         if gen is generate2:
